@@ -3,7 +3,7 @@
    the extracted inductives; no Extract Constant. *)
 Require Extraction.
 From Coq Require Import ExtrOcamlBasic.
-From Adept Require Import Scalar GapList Tape Jacobian Buffers View Engines Interp Storage Assign VecSplit ExprDefs Expr Program ArrayStmt Protocol Matmul Minim MinimCG.
+From Adept Require Import Scalar GapList Tape Jacobian Buffers View Engines Interp Storage Assign VecSplit ExprDefs Expr Program ArrayStmt Protocol Matmul Minim MinimCG MinimLBFGS.
 From AdeptGen Require Import Gen_Engines Gen_Ops.
 Extraction "model.ml"
   GapList.init GapList.register1 GapList.registerN GapList.unregisterN GapList.new_recording GapList.step GapList.run
@@ -22,4 +22,4 @@ Extraction "model.ml"
   Expr.value_and_gradient Expr.sem Expr.tangent Expr.n_active Expr.n_scratch Expr.n_arrays Expr.mkFOps Program.exec Program.dexec Program.instantiate Gen_Ops.unary_functions ArrayStmt.aexec ArrayStmt.denoted
   Protocol.pstep Protocol.pinit Protocol.obs_gradient Protocol.obs_gradient_error Protocol.obs_jacobian Protocol.obs_counts
   Matmul.adept_gemm_cell Matmul.adept_gemv_cell Matmul.zsum Matmul.gemm_statement Matmul.ops_val
-  Minim.lm_bounded Minim.lm_unbounded Minim.status_code MinimCG.cg_bounded MinimCG.cg_unbounded.
+  Minim.lm_bounded Minim.lm_unbounded Minim.status_code MinimCG.cg_bounded MinimCG.cg_unbounded MinimLBFGS.lbfgs_bounded.
